@@ -725,8 +725,8 @@ func ruleSkipFlags(c *Ctx) []Ob {
 	tptr, _ := c.constOf(pkgDefs, "T_pointer")
 	tbin, _ := c.constOf(pkgDefs, "T_binary")
 	ncp, _ := c.constOf(pkgDefs, "NoCopy")
-	aOpt, aPtr, aBin := fmt.Sprintf("Spec==%d", opt), fmt.Sprintf("Tag==%d", tptr), fmt.Sprintf("Tag==%d", tbin)
-	aCont, aDefNil, aNoCopy0 := "containerTypes[T]", "Default==nil", fmt.Sprintf("(Opts&%d)==0", ncp)
+	aOpt, aPtr, aBin := fmt.Sprintf("Spec==%d", opt), fmt.Sprintf("Type.Tag==%d", tptr), fmt.Sprintf("Type.Tag==%d", tbin)
+	aCont, aDefNil, aNoCopy0 := "containerTypes[Type.T]", "Default==nil", fmt.Sprintf("(Opts&%d)==0", ncp)
 	type verdict struct {
 		bad  string
 		seen int
